@@ -62,6 +62,40 @@ def run(ctx):
     ctx.require(n_at >= 2, 'Vector2/Vector3::at instantiations not found in the witness unit')
 
 
+
+_DN_REN = {}
+
+
+def dn_names(dn):
+    """renaming of delete_node's own variable names to the canonical ones: the walker that is finally
+    deleted -> n, the node returned by the replacement search -> target"""
+    ren = {}
+    for d_ in walk(body_of(dn)):
+        if d_.get('kind') == 'CXXDeleteExpr' and kids(d_):
+            rd = ref_decl(kids(d_)[0])
+            if rd is not None and rd.get('name') and rd['name'] != 'n':
+                ren[rd['name']] = 'n'
+    for v in walk(body_of(dn)):
+        if v.get('kind') == 'VarDecl' and v.get('name') and v['name'] != 'target':
+            hits = [c for c in walk(v) if c.get('kind') in ('CallExpr', 'CXXMemberCallExpr') and call_name(c) == 'find_subtree_min_max']
+            if hits:
+                ren[v['name']] = 'target'
+    for x in walk(body_of(dn)):
+        if x.get('kind') == 'BinaryOperator' and x.get('opcode') == '=' and any(c.get('kind') in ('CallExpr', 'CXXMemberCallExpr') and call_name(c) == 'find_subtree_min_max' for c in walk(x['inner'][1])):
+            rd = ref_decl(x['inner'][0])
+            if rd is not None and rd.get('name') and rd['name'] != 'target':
+                ren[rd['name']] = 'target'
+    return ren
+
+
+def dnn(s_):
+    """apply the current delete_node renaming to a canonical string"""
+    if s_ is None:
+        return s_
+    for a_, b_ in _DN_REN.items():
+        s_ = re.sub(r'(?<![\w.])%s(?![\w(])' % re.escape(a_), b_, s_)
+    return s_
+
 def one(m, name, nparams=None):
     fs = m.get(name, [])
     if nparams is not None:
@@ -202,28 +236,30 @@ def check_tree(ctx, u, lab, m):
     R = 'C13-R2'
     dn = one(m, 'delete_node')
     ctx.fn(lab + '::delete_node')
+    _DN_REN.clear()
+    _DN_REN.update(dn_names(dn))
     calls = [c for c in walk(body_of(dn)) if c.get('kind') in ('CallExpr', 'CXXMemberCallExpr') and call_name(c) == 'find_subtree_min_max']
     ctx.require(len(calls) >= 1, 'delete_node: replacement search not found')
     for i, c in enumerate(calls):
         a = call_args(c)
-        sub, dim, mx = canon(a[0]), canon(a[1]), int_value(a[2])
+        sub, dim, mx = dnn(canon(a[0])), dnn(canon(a[1])), int_value(a[2])
         ok = sub == 'n.after_or_equal' and dim == 'n.dim' and mx == 0
         why = 'replacement is the %s of %s along %s' % ('maximum' if mx else 'minimum', sub, dim)
         if sub == 'n.before' and mx == 1:
             why += ': with ties along the split dimension the other tied entries stay under `before` although they are not strictly smaller than the new node value, and exact lookups stop finding them'
         ctx.check(ok, R, '%s|delete_node|replacement#%d' % (lab, i), c, 'minimum of after_or_equal along n->dim', why)
-    rehome = [x for x in walk(body_of(dn)) if x.get('kind') == 'IfStmt' and nf(if_parts(x)[0]) == '!n.after_or_equal']
+    rehome = [x for x in walk(body_of(dn)) if x.get('kind') == 'IfStmt' and dnn(nf(if_parts(x)[0])) == '!n.after_or_equal']
     def _rehomes(then):
-        st_ = [nf(s_) for s_ in stmts_of(then)]
+        st_ = [dnn(nf(s_)) for s_ in stmts_of(then)]
         if st_ == ['(n.after_or_equal = n.before)', '(n.before = nullptr)']:
             return True
         # std::swap(n->before, n->after_or_equal) under `after_or_equal == nullptr` has the same effect
-        sw_ = [c_ for c_ in walk(then) if c_.get('kind') == 'CallExpr' and call_name(c_) == 'swap' and sorted(nf(a_) for a_ in call_args(c_)) == ['n.after_or_equal', 'n.before']]
+        sw_ = [c_ for c_ in walk(then) if c_.get('kind') == 'CallExpr' and call_name(c_) == 'swap' and sorted(dnn(nf(a_)) for a_ in call_args(c_)) == ['n.after_or_equal', 'n.before']]
         return len(stmts_of(then)) == 1 and len(sw_) == 1
-    rehome = [x for x in walk(body_of(dn)) if x.get('kind') == 'IfStmt' and nf(if_parts(x)[0]) in ('!n.after_or_equal', '(n.after_or_equal == nullptr)', '(nullptr == n.after_or_equal)')]
+    rehome = [x for x in walk(body_of(dn)) if x.get('kind') == 'IfStmt' and dnn(nf(if_parts(x)[0])) in ('!n.after_or_equal', '(n.after_or_equal == nullptr)', '(nullptr == n.after_or_equal)')]
     okr = len(rehome) == 1 and _rehomes(if_parts(rehome[0])[1]) and rehome[0].get('_off', 0) < calls[0].get('_off', 0)
     ctx.check(okr, R, lab + '|delete_node|rehome-before', rehome[0] if rehome else dn, 'a lone before subtree is moved to after_or_equal (and before cleared) before the search', 'the lone-`before` case is not re-homed to after_or_equal before taking the minimum')
-    moves = [nf(x) for x in walk(body_of(dn)) if x.get('kind') in ('BinaryOperator', 'CXXOperatorCallExpr') and (x.get('opcode') == '=' or call_name(x) == 'operator=') and canon(x['inner'][0] if x.get('kind') == 'BinaryOperator' else x['inner'][1]) in ('n.pt', 'n.value', 'n')]
+    moves = [dnn(nf(x)) for x in walk(body_of(dn)) if x.get('kind') in ('BinaryOperator', 'CXXOperatorCallExpr') and (x.get('opcode') == '=' or call_name(x) == 'operator=') and dnn(canon(x['inner'][0] if x.get('kind') == 'BinaryOperator' else x['inner'][1])) in ('n.pt', 'n.value', 'n')]
     ctx.check(any('n.pt' in s_ and 'target.pt' in s_ for s_ in moves) and any('n.value' in s_ and 'target.value' in s_ for s_ in moves) and '(n = target)' in moves, R, lab + '|delete_node|move-up', dn, 'point and value of the replacement move up, then the replacement is deleted in turn', 'replacement copy-up changed: %s' % moves)
     fm = one(m, 'find_subtree_min_max')
     ctx.fn(lab + '::find_subtree_min_max')
@@ -339,11 +375,19 @@ def check_tree(ctx, u, lab, m):
     else:
       if not okh and all(any(o.rule == 'C13-R1' and o.ok and o.key == '%s|%s|half-open-box' % (lab, fn_) for o in ctx.obs) for fn_ in ('within', 'exists')):
           ctx.ok(R, lab + '|hit-action', hit_w[0], 'the hit conditions are written differently; each is the half-open box test of C13-R1')
+      elif not okh and not any(o.rule == 'C13-R1' and not o.ok and o.key in ('%s|within|half-open-box' % lab, '%s|exists|half-open-box' % lab) for o in ctx.obs):
+          # the two hit conditions are spelled differently and the box rule could not read one of them (a helper / lambda): not decided here
+          ctx.undecided(R, lab + '|hit-action', hit_w[0], 'the hit conditions of within and exists(range) are written differently and the box test of one of them is outside what C13-R1 reads')
       else:
           ctx.check(okh, R, lab + '|hit-action', hit_w[0] if hit_w else wi, 'collect vs return true under the same condition', 'the hit conditions of within and exists(range) differ')
     rw = [x for x in walk(body_of(wi)) if x.get('kind') == 'ReturnStmt']
     re_ = [x for x in walk(body_of(ex)) if x.get('kind') == 'ReturnStmt' and int_value(kids(x)[0]) == 0]
-    okr = len(rw) == 2 and len(re_) == 2 and any(f_.origin is not None and 'this.root' in nf(f_.cond) for f_ in path_facts(rw[0])) and not any(t.get('kind') == 'CXXThrowExpr' for t in walk(body_of(wi)))
+    no_throw = not any(t.get('kind') == 'CXXThrowExpr' for f_ in (wi, ex) for t in walk(body_of(f_)))
+    okr = len(rw) == 2 and len(re_) == 2 and any(f_.origin is not None and 'this.root' in nf(f_.cond) for f_ in path_facts(rw[0])) and no_throw
+    if not okr and no_throw:
+        # another way of handling the empty tree (e.g. the queue is only seeded when root is non-null):
+        # it is right iff the root is never enqueued / dereferenced while null, which is C13-R3's obligation
+        okr = all(any(o.rule == 'C13-R3' and o.ok and o.key == '%s|%s|queue-seeded-with-root' % (lab, fn_) for o in ctx.obs) for fn_ in ('within', 'exists'))
     ctx.check(okr, R, lab + '|empty-tree-result', wi, 'empty tree: within returns the empty vector, exists false (neither throws)', 'within/exists(range) disagree on the empty tree (one of them throws or dereferences root)')
 
     return _check_r5(ctx, u, lab, m, ln, dn, calls)
@@ -395,22 +439,39 @@ def _check_r5(ctx, u, lab, m, ln, dn, calls):
     ctx.check(okpd, R, lab + '|link_node|parent-dim', ln, 'child gets parent = n and dim = (n.dim + 1) mod dimensions', 'parent/dim initialisation changed: %s' % dims)
     decs = [x for x in walk(body_of(dn)) if x.get('kind') == 'UnaryOperator' and x.get('opcode') == '--' and canon(x['inner'][0]) == 'this.node_count']
     dels = [x for x in walk(body_of(dn)) if x.get('kind') == 'CXXDeleteExpr']
-    ctx.check(len(decs) == 1 and len(dels) == 1 and enclosing(decs[0], LOOPS) is None and enclosing(dels[0], LOOPS) is None and canon(kids(dels[0])[0]) == 'n', R, lab + '|delete_node|count-delete', dn, 'exactly one node_count-- and one delete per deletion', 'delete_node decrements %d time(s) and deletes %d time(s)' % (len(decs), len(dels)))
+    ctx.check(len(decs) == 1 and len(dels) == 1 and enclosing(decs[0], LOOPS) is None and enclosing(dels[0], LOOPS) is None and dnn(canon(kids(dels[0])[0])) == 'n', R, lab + '|delete_node|count-delete', dn, 'exactly one node_count-- and one delete per deletion', 'delete_node decrements %d time(s) and deletes %d time(s)' % (len(decs), len(dels)))
     un = [nf(x) for x in walk(body_of(dn)) if x.get('kind') == 'IfStmt' and x.get('_off', 0) > (calls[0].get('_off', 0))]
     want_un = {'(n == n.parent.before)', '(n == n.parent.after_or_equal)'}
     from guard import subst_locals
     # (a local alias `Node* parent = n->parent` is substituted away)
-    palias = {v.get('name') for v in walk(body_of(dn)) if v.get('kind') == 'VarDecl' and kids(v) and nf(kids(v)[-1]) == 'n.parent'}
+    palias = {v.get('name') for v in walk(body_of(dn)) if v.get('kind') == 'VarDecl' and kids(v) and dnn(nf(kids(v)[-1])) == 'n.parent'}
 
     def _pn(t):
         import re as _re3
+        t = dnn(t)
         for a_ in palias:
             t = _re3.sub(r'(?<![\w.])%s(?![\w(])' % _re3.escape(a_), 'n.parent', t)
         return t.replace('(nullptr == n.parent)', '(n.parent == nullptr)')
-    conds = {_pn(nf(if_parts(x)[0])): [_pn(nf(s)) for s in stmts_of(if_parts(x)[1])] for x in walk(body_of(dn)) if x.get('kind') == 'IfStmt'}
-    oku = conds.get('(n == n.parent.before)') == ['(n.parent.before = nullptr)'] and conds.get('(n == n.parent.after_or_equal)') == ['(n.parent.after_or_equal = nullptr)'] and \
-        any(k_ in ('(n.parent == nullptr)', '(nullptr == n.parent)', '!n.parent') and v_[:1] == ['(this.root = nullptr)'] for k_, v_ in conds.items())
-    ctx.check(oku, R, lab + '|delete_node|unlink-from-parent', dn, 'the parent slot that holds the node is cleared (root if there is no parent)', 'unlink-from-parent changed: %s' % {k_: v_ for k_, v_ in conds.items() if 'parent' in k_})
+    # each of the three "forget the node" assignments is reached exactly under the fact that the slot
+    # holds the node (operand order, nesting and a local alias for the parent do not matter)
+    want_slots = {'n.parent.before': ('n', 'n.parent.before'), 'n.parent.after_or_equal': ('n', 'n.parent.after_or_equal'), 'this.root': ('n.parent', 'nullptr')}
+    seen_slots = {}
+    for x in walk(body_of(dn)):
+        if x.get('kind') == 'BinaryOperator' and x.get('opcode') == '=' and strip(x['inner'][1]).get('kind') in ('CXXNullPtrLiteralExpr', 'GNUNullExpr', 'ImplicitCastExpr') and _pn(nf(x['inner'][0])) in want_slots and _pn(nf(x['inner'][1])) in ('nullptr', '0'):
+            slot = _pn(nf(x['inner'][0]))
+            if enclosing(x, LOOPS) is not None:
+                continue      # the re-homing inside the replacement loop, judged by R2
+            eqs = set()
+            for n_, pol_ in atoms(path_facts(x)):
+                r_ = relation(n_, pol_)
+                if r_ and r_[1] == '==':
+                    eqs.add(tuple(sorted((_pn(nf(r_[0])), _pn(nf(r_[2]))))))
+                elif r_ is None and not pol_:
+                    eqs.add(tuple(sorted((_pn(nf(n_)), 'nullptr'))))       # `!p`  ==  p == nullptr
+            seen_slots[slot] = tuple(sorted(want_slots[slot])) in eqs
+    oku = set(seen_slots) == set(want_slots) and all(seen_slots.values())
+    ctx.check(oku, R, lab + '|delete_node|unlink-from-parent', dn, 'the parent slot that holds the node is cleared (root if there is no parent)',
+              'unlink-from-parent changed: %s' % {k_: ('cleared under the right test' if v_ else 'cleared without the test that the slot holds the node') for k_, v_ in seen_slots.items()} + (' / never cleared: %s' % sorted(set(want_slots) - set(seen_slots)) if set(want_slots) - set(seen_slots) else ''))
     ds = one(m, '~KDTree')
     ctx.fn(lab + '::~KDTree')
     lp_ = [x for x in walk(body_of(ds)) if x.get('kind') == 'WhileStmt']
